@@ -195,7 +195,7 @@ pub fn gen(tier: &str, seed: u64, out: &mut dyn FnMut(Value)) {
     let ints = [
         "0", "-0", "1", "-1", "255", "256", "-256", "9223372036854775807", "9223372036854775808", "-9223372036854775808",
         "-9223372036854775809", "18446744073709551615", "18446744073709551616", "1000000000000000000000000000000", "-1000000000000000000000000000000",
-        "0x7fffffffffffffff", "0xffffffffffffffff", "0x10000000000000000", "0X40", "0XFF", "0Xg", "0b101", "-0x10", "0x-10", "1e400", "-1e400", "1.0", "0o17", "+5", "010", "1_000", ".5", "5.", "NaN", ".inf",
+        "31", "32", "33", "63", "64", "65", "-63", "-64", "-65", "127", "128", "4294967295", "4294967296", "0x7fffffffffffffff", "0xffffffffffffffff", "0x10000000000000000", "0X40", "0XFF", "0Xg", "0b101", "-0x10", "0x-10", "1e400", "-1e400", "1.0", "0o17", "+5", "010", "1_000", ".5", "5.", "NaN", ".inf",
     ];
     for a in ints {
         let t = format!("---\nname: r\nmatch-on:\n  events:\n    s: [{a}]\n");
@@ -225,6 +225,18 @@ pub fn gen(tier: &str, seed: u64, out: &mut dyn FnMut(Value)) {
     // YAML that stops in the middle of a construct: every reader entry point must come back with an error
     for t in ["name: [\n", "name: 'x\n", "name: \"x\n", "name: {a: b\n", "---\nname: r\n---\nname: [\n", "? $a\n", "name: r\nmatches: {\n", "- [\n", "\t\n", "%YAML 9.9\n---\n", "name: &a [*a\n", "name: !!binary =\n"] {
         out(json!({"op": "load_text", "rules": t, "tag": "truncated YAML", "nt": true}));
+    }
+    // references among rules that cannot be honoured: to itself, in a circle, forward, to nothing - an error, and the call returns
+    for t in [
+        "---\nname: s\nmatches:\n  $a: rule(s)\ncondition: $a\n",
+        "---\nname: p\nmatches:\n  $a: rule(q)\ncondition: $a\n---\nname: q\nmatches:\n  $a: rule(p)\ncondition: $a\n",
+        "---\nname: a\nmatches:\n  $a: rule(c)\n---\nname: b\nmatches:\n  $a: rule(a)\n---\nname: c\nmatches:\n  $a: rule(b)\n",
+        "---\nname: s\nmatches:\n  $a: rule(s)\n  $b: rule(s)\ncondition: $a and $b\n---\nname: t\nmatches:\n  $a: rule(s)\n",
+        "---\nname: f\nmatches:\n  $a: rule(later)\n---\nname: later\nmatches:\n  $a: .x == '1'\n",
+        "---\nname: s\ntype: dependency\nmatches:\n  $a: rule(s)\n",
+        "---\nname: s\nparams: {disable: true}\nmatches:\n  $a: rule(s)\n---\nname: u\nmatches:\n  $a: rule(s)\n",
+    ] {
+        out(json!({"op": "load_text", "rules": t, "tag": "references that cannot be honoured", "nt": true}));
     }
     // aliases: to an anchor of the same document (fine), of an earlier document, of no document at all, in every position
     // a value can take - a reader must come back with rules or an error, whatever the YAML library does after it
